@@ -4,6 +4,8 @@
 (*                                                                                                  *)
 (* This module is the STATEMENT of the property over a bounded universe of directory trees:        *)
 (*   - what a case is (tree, fault assignment, input form, output form, fail-fast, configuration), *)
+(*   - the per-directory context shared by the files of a batch (nested .luaurc files) and the     *)
+(*     DOCUMENTED expectation about it (AliasDir: the nearest .luaurc above a file serves it),     *)
 (*   - the DOCUMENTED destination of every Lua file (Dest), transcribed from the contract that     *)
 (*     WorkerTree::collect_work implements (see "destination contract" below),                     *)
 (*   - the initial tree of the case (what the renderer must create) and the reference tree         *)
@@ -107,7 +109,8 @@ Dest(c, i) ==
 \* ------------------------------------------------------------------ the initial tree of a case
 \* records [p |-> path, k |-> "f" | "d", c |-> content class]; directories that merely contain something are implied.
 \* content classes: "ok:<id>" healthy Lua, "syntax", "utf8", "rule" faulty Lua, "text" a non-Lua file, "pre" a pre-existing file,
-\* "lib:<m>" a library module outside the input
+\* "lib:<m>" a library module outside the input, "rc:<t>" a .luaurc and "alias:<t>" the module its alias leads to (see
+\* "per-directory context" below)
 F(p, cls) == [p |-> p, k |-> "f", c |-> cls]
 D(p)      == [p |-> p, k |-> "d", c |-> ""]
 
